@@ -238,9 +238,11 @@ def judge_trace(pid, binp, args, trace, verdict, scd, per_chunk=5, procs=8, max_
             continue
         by_sig.setdefault(signature(pid, m, ev, proj), []).append((m, ev, proj))
     jobs = []
-    for sig, items in by_sig.items():
-        for m, ev, proj in items[:max_confirm]:
-            jobs.append((sig, m, ev, proj))
+    for rank in range(max_confirm):       # one per signature always, further ones while the batch stays small
+        for sig, items in by_sig.items():
+            if rank < len(items) and (rank == 0 or len(jobs) < 10):
+                m, ev, proj = items[rank]
+                jobs.append((sig, m, ev, proj))
     confirmed = 0
     kept = confirm_all(binp, args, pid, [(m, ev, proj) for _, m, ev, proj in jobs], scd, tag)
     for (sig, m, ev, proj), keep in zip(jobs, kept):
@@ -452,7 +454,7 @@ def selftest_binding(trace, scd):
 
 # ---------------------------------------------------------------- the generic check
 
-def check(pid, tier, profile, mc_quick, mc_thorough, dump_cfg, n_quick=40, n_thorough=400, floors=None, rule="", probes=False,
+def check(pid, tier, profile, mc_quick, mc_thorough, dump_cfg, n_quick=36, n_thorough=200, floors=None, rule="", probes=False,
           count=None):
     """Common body of the five checks. `floors` = minimal counts (keys of the driver report's extra /
     reply kinds) below which the run is vacuous (exit 2). `count(events)` adds property-specific
